@@ -38,6 +38,7 @@ type c26obs struct {
 	Err         string     `json:"err,omitempty"`
 	Republished int        `json:"republished"` // republish requests answered with a notification
 	Creates     int        `json:"creates"`
+	ItemsRound  []int      `json:"items_round"` // monitored items the client asked to create in each reconnect round
 }
 
 // acks history: Case.L = per response 5 ints: sub (1,2 or 77), data(0/1), nresultsDelta (-1,0,1), statusIndexBase, unused
@@ -49,6 +50,8 @@ func c26Run(cs *Case) c26obs {
 	sessions := 0
 	republishes := 0
 	connAtDrop := 0
+	sessionsAtDrop := 0
+	nextItemID := uint32(0)
 	subID := uint32(0)
 	readyCh := make(chan struct{}) // closed when both subscriptions are registered in the client
 	var srv *scriptsrv.Server
@@ -60,8 +63,10 @@ func c26Run(cs *Case) c26obs {
 		case *ua.ReadRequest:
 			if len(req.NodesToRead) == 1 && req.NodesToRead[0].NodeID.Namespace() == 9 {
 				go func() { time.Sleep(20 * time.Millisecond); srv.DropAll() }()
-				phase = 1
+				phase++
 				connAtDrop = c.ID
+				sessionsAtDrop = sessions
+				ob.ItemsRound = append(ob.ItemsRound, 0)
 				return &ua.ReadResponse{ResponseHeader: hdr(), Results: []*ua.DataValue{{EncodingMask: ua.DataValueValue, Value: ua.MustVariant(int32(0))}}}, true
 			}
 			return nil, false
@@ -69,13 +74,13 @@ func c26Run(cs *Case) c26obs {
 			sessions++
 			return nil, false
 		case *ua.ActivateSessionRequest:
-			if phase == 1 && sessions == 1 && cs.P["session_lost"] == 1 {
+			if phase >= 1 && sessions == sessionsAtDrop && cs.P["session_lost"] == 1 {
 				return scriptsrv.Fault(r, ua.StatusBadSessionIDInvalid), true
 			}
 			return nil, false
 		case *ua.CreateSubscriptionRequest:
 			subID++
-			if phase == 1 {
+			if phase >= 1 {
 				ob.Creates++
 				if cs.P["create_ok"] == 0 {
 					return scriptsrv.Fault(r, ua.StatusBadTooManySubscriptions), true
@@ -87,10 +92,15 @@ func c26Run(cs *Case) c26obs {
 			return &ua.DeleteSubscriptionsResponse{ResponseHeader: hdr(), Results: statuses(len(req.SubscriptionIDs), 0), DiagnosticInfos: []*ua.DiagnosticInfo{}}, true
 		case *ua.CreateMonitoredItemsRequest:
 			bad := 0
-			if phase == 1 && cs.P["items_ok"] == 0 {
+			if phase >= 1 && cs.P["items_ok"] == 0 {
 				bad = 1
 			}
-			return &ua.CreateMonitoredItemsResponse{ResponseHeader: hdr(), Results: createResults(len(req.ItemsToCreate), bad, 0), DiagnosticInfos: []*ua.DiagnosticInfo{}}, true
+			if phase >= 1 {
+				ob.ItemsRound[phase-1] += len(req.ItemsToCreate)
+			}
+			base := int(nextItemID) // item ids are unique across requests, as on a real server
+			nextItemID += uint32(len(req.ItemsToCreate))
+			return &ua.CreateMonitoredItemsResponse{ResponseHeader: hdr(), Results: createResults(len(req.ItemsToCreate), bad, base), DiagnosticInfos: []*ua.DiagnosticInfo{}}, true
 		case *ua.TransferSubscriptionsRequest:
 			if cs.P["transfer_failed"] == 1 {
 				return scriptsrv.Fault(r, ua.StatusBadServiceUnsupported), true
@@ -122,11 +132,11 @@ func c26Run(cs *Case) c26obs {
 			if al == nil {
 				al = [][2]int{}
 			}
-			if phase == 1 && c.ID > connAtDrop {
+			if phase >= 1 && c.ID > connAtDrop {
 				ob.PubsAfter++
 			}
 			if cs.S["kind"] != "acks" {
-				if phase == 1 && c.ID > connAtDrop {
+				if phase >= 1 && c.ID > connAtDrop {
 					ob.Acks = append(ob.Acks, al)
 				}
 				return nil, true
@@ -198,6 +208,13 @@ func c26Run(cs *Case) c26obs {
 		sub, err := c.Subscribe(ctx, nil, notifs)
 		if err == nil && cs.S["kind"] == "reconnect" {
 			_, err = sub.Monitor(ctx, ua.TimestampsToReturnBoth, itemsReq(2)...)
+			if err == nil && cs.P["groups"] >= 2 {
+				// a second group of items with another TimestampsToReturn
+				_, err = sub.Monitor(ctx, ua.TimestampsToReturnSource, opcua.NewMonitoredItemCreateRequestWithDefaults(ua.NewNumericNodeID(1, 70), ua.AttributeIDValue, 9))
+			}
+			if err == nil && cs.P["groups"] >= 3 {
+				_, err = sub.Monitor(ctx, ua.TimestampsToReturnServer, opcua.NewMonitoredItemCreateRequestWithDefaults(ua.NewNumericNodeID(1, 71), ua.AttributeIDValue, 10))
+			}
 		}
 		if err != nil {
 			ob.Err = err.Error()
@@ -218,28 +235,34 @@ func c26Run(cs *Case) c26obs {
 			time.Sleep(20 * time.Millisecond)
 		}
 	} else {
-		for len(stateCh) > 0 {
-			<-stateCh
+		rounds := cs.P["rounds"]
+		if rounds < 1 {
+			rounds = 1
 		}
-		ctlRead(ctx, c, 2)
-		deadline := time.After(20 * time.Second)
-		sawDisc := false
-	wait:
-		for {
-			select {
-			case s := <-stateCh:
-				if s == opcua.Disconnected {
-					sawDisc = true
-				}
-				if sawDisc && (s == opcua.Connected || s == opcua.Closed) {
+		for round := 0; round < rounds && ob.Err == ""; round++ {
+			for len(stateCh) > 0 {
+				<-stateCh
+			}
+			ctlRead(ctx, c, 2)
+			deadline := time.After(20 * time.Second)
+			sawDisc := false
+		wait:
+			for {
+				select {
+				case s := <-stateCh:
+					if s == opcua.Disconnected {
+						sawDisc = true
+					}
+					if sawDisc && (s == opcua.Connected || s == opcua.Closed) {
+						break wait
+					}
+				case <-deadline:
+					ob.Err = "timeout waiting for the reconnect"
 					break wait
 				}
-			case <-deadline:
-				ob.Err = "timeout waiting for the reconnect"
-				break wait
 			}
+			time.Sleep(1200 * time.Millisecond) // publishing (if any) shows up now
 		}
-		time.Sleep(1200 * time.Millisecond) // publishing (if any) shows up now
 	}
 	mu.Lock()
 	defer mu.Unlock()
@@ -300,6 +323,8 @@ func c26Gen(r *rng.R, i int) *Case {
 	c.P["republish_msgs"] = r.Intn(2)
 	c.P["create_ok"] = r.Pick(1, 1, 0)
 	c.P["items_ok"] = r.Pick(1, 1, 0)
+	c.P["groups"] = r.Range(1, 3)
+	c.P["rounds"] = r.Pick(1, 2)
 	return c
 }
 
@@ -331,6 +356,10 @@ func c26Main(seed uint64, n int, replay string) {
 			&Case{ID: 0, Op: "c26", S: map[string]string{"kind": "reconnect"}, P: map[string]int{"session_lost": 1, "transfer_ok": 1, "republish_ok": 1, "republish_msgs": 1, "create_ok": 1, "items_ok": 1}},
 			&Case{ID: 1, Op: "c26", S: map[string]string{"kind": "reconnect"}, P: map[string]int{"session_lost": 1, "transfer_ok": 0, "republish_ok": 1, "create_ok": 0, "items_ok": 1}},
 			&Case{ID: 2, Op: "c26", S: map[string]string{"kind": "reconnect"}, P: map[string]int{"session_lost": 0, "transfer_ok": 1, "republish_ok": 1, "create_ok": 1, "items_ok": 1}})
+		// two consecutive recreating reconnects of a subscription whose items use 2 and 3 TimestampsToReturn values
+		for g := 2; g <= 3; g++ {
+			cases = append(cases, &Case{ID: len(cases), Op: "c26", S: map[string]string{"kind": "reconnect"}, P: map[string]int{"session_lost": 1, "transfer_ok": 0, "republish_ok": 1, "create_ok": 1, "items_ok": 1, "groups": g, "rounds": 2}})
+		}
 		for i := len(cases); i < n; i++ {
 			cases = append(cases, c26Gen(r, i))
 		}
